@@ -24,7 +24,8 @@ func zzRefU64(v uint64) []byte {
 
 // zzFragSrc delivers data in fragments chosen by the solver: every Read returns between 0 and
 // min(len(p), remaining) bytes; when the data is exhausted it may deliver the last bytes together
-// with io.EOF or report io.EOF on the next call. At most maxCalls calls are explored.
+// with io.EOF or report io.EOF on the next call. The first maxCalls calls fragment symbolically,
+// later calls deliver as much as fits.
 type zzFragSrc struct {
 	data     []byte
 	pos      int
@@ -35,7 +36,6 @@ type zzFragSrc struct {
 
 func (s *zzFragSrc) Read(p []byte) (int, error) {
 	s.calls++
-	zzAssume(s.calls <= s.maxCalls)
 	rem := len(s.data) - s.pos
 	if rem == 0 {
 		s.eofSent = true
@@ -44,6 +44,12 @@ func (s *zzFragSrc) Read(p []byte) (int, error) {
 	lim := rem
 	if len(p) < lim {
 		lim = len(p)
+	}
+	if s.calls > s.maxCalls {
+		// beyond the explored fragmentation budget the source delivers as much as it can
+		copy(p, s.data[s.pos:s.pos+lim])
+		s.pos += lim
+		return lim, nil
 	}
 	m := zzInt("m", 0, lim)
 	copy(p, s.data[s.pos:s.pos+m])
